@@ -11,7 +11,7 @@ usage: seed_eval.py <seed_dir with patch.diff, demo.py, meta.json> <property id>
 """
 import json, os, shutil, subprocess, sys, tempfile, time
 
-seed_dir, pid, sid = sys.argv[1], sys.argv[2], sys.argv[3]
+seed_dir, pid, sid = os.path.abspath(sys.argv[1]), sys.argv[2], sys.argv[3]
 in_repo = "--in-repo" in sys.argv
 recheck = "--recheck" in sys.argv      # the change was confirmed before: only apply it and run the check again
 VERIF = os.path.dirname(os.path.dirname(os.path.abspath(__file__)))
@@ -101,8 +101,10 @@ finally:
 if res.get("confirmed"):
     out = os.path.join(VERIF, "seeded", sid)
     os.makedirs(out, exist_ok=True)
-    shutil.copy(patch, os.path.join(out, "patch.diff"))
-    shutil.copy(demo, os.path.join(out, "demo.py"))
+    for src, name in ((patch, "patch.diff"), (demo, "demo.py")):
+        dst = os.path.join(out, name)
+        if os.path.abspath(src) != os.path.abspath(dst):
+            shutil.copy(src, dst)
     meta.update({"id": sid, "breaks_property": pid, "confirmed": {k: res.get(k) for k in (
         "suite_line", "demo_clean_exit", "demo_patched_exit")}, "check_result": {k: res.get(k) for k in (
             "check_exit", "detected", "fired", "other_lines", "summary_line", "check_wall_s", "how")},
